@@ -38,7 +38,7 @@ def _start_wrappers(ctx, start):
     while changed:
         changed = False
         for g in prod:
-            if g in wrappers or g is start or g.fq in ALLOWED_CREATORS or not g.name.startswith("_") or g.name.startswith("__"):
+            if g in wrappers or g is start or g.fq in ALLOWED_CREATORS or not g.name.startswith("_") or g.name.startswith("__") or g.module is not start.module:
                 continue
             ev = []
             for h in [start] + sorted(wrappers, key=lambda x: x.fq):
